@@ -145,6 +145,19 @@ def main(ctx, pid='C09'):
             ctx.violation('V', 'recorded grow-only history violates ' + rej[ev['id']][0],
                           case={'history': [e['act'] for e in evs[:k + 1]], 'objs_before': evs[k - 1]['objs'] if k else None},
                           expected=rej[ev['id']][1], actual={'objs': ev['objs'], 'broken': ev['broken'], 'outcome': ev['act'].get('outcome')}, clause=rej[ev['id']][0])
+    # ---- V (twin sweep): one public call on a grown FrameGO (flat / hierarchical columns) or IndexHierarchyGO against the same call on a twin built at once
+    if pid == 'C09':
+        import json
+        from . import twin
+        tev = twin.events(ctx.rng, 1200 if quick else 30000, [twin.frame_pair, twin.frame_pair, twin.hier_pair])
+        for k, ev in enumerate(tev):
+            ev['id'] = k
+            ctx.count('V_twin_' + ev['info'].get('kind', 'history').split(':')[0])
+        trej = ctx.validate_events('Trace_C02', 'Trace.cfg', tev, chunk=600)
+        for ev in tev:
+            if ev['id'] in trej:
+                ctx.violation('V', 'a call on a grown container differs from the same call on one built at once: %s' % ev['what'], case={'method': ev['what'], 'info': ev['info']},
+                              actual=json.loads(ev['stale']), expected=json.loads(ev['fresh']), clause=trej[ev['id']][0])
     # ---- V (hierarchical): IndexHierarchyGO histories (append / extend at depth 2-3 with cache-materialising reads in between, indices built
     # from the grown hierarchy) are the SFHier part of the specification; the same recorded histories are validated here by Trace_C05
     if pid == 'C09':
@@ -162,4 +175,4 @@ def main(ctx, pid='C09'):
         ctx.count('V_hierarchical_history_events', len(hev))
         hier_columns_probes(ctx, 120 if quick else 3000)
     ctx.sample({'leg': 'V', 'history': [e['act'] for e in events[:6]]})
-    return ctx.finish(rule='M: SFGo (required semantics) exhaustive for 3 labels, <=2 (thorough 3) live objects, <=3 labels each, with action properties AppendOnly / AllOrNothing / Isolation; R: TLC simulation behaviours (depth 9, 4 labels, <=4 objects) replayed on real FrameGO/IndexGO and 28 derivation routes; V: random histories of 8-30 calls (5 labels, <=9 objects) validated by Trace_Go; every step projects every live object incl. membership/lookup probes of all universe labels, per-column dtypes and equals; plus IndexHierarchyGO histories (depth 2-3, reads in between, indices derived from the grown hierarchy) validated by Trace_C05')
+    return ctx.finish(rule='M: SFGo (required semantics) exhaustive for 3 labels, <=2 (thorough 3) live objects, <=3 labels each, with action properties AppendOnly / AllOrNothing / Isolation; R: TLC simulation behaviours (depth 9, 4 labels, <=4 objects) replayed on real FrameGO/IndexGO and 28 derivation routes; V: random histories of 8-30 calls (5 labels, <=9 objects) validated by Trace_Go; every step projects every live object incl. membership/lookup probes of all universe labels, per-column dtypes and equals; plus IndexHierarchyGO histories (depth 2-3, reads in between, indices derived from the grown hierarchy) validated by Trace_C05; twin sweep: one of ~70 public calls on a grown FrameGO (flat / hierarchical columns, reads between the assignments, none at the end) against the same call on a twin built at once')
